@@ -852,14 +852,25 @@ impl<'a> Exec<'a> {
                     // removal), the checkpoint file is complete but it was never acknowledged
                     self.m.ckpts.push(Ckpt { id: a, snap, status: Status::Interrupted, evicted: false, evict_uncertain: false, op_index: step, incarnation: self.m.restarts });
                 }
-                // a crash inside the retention removal leaves the evicted checkpoint half removed
-                if d.fired.contains(&"fault.crash_inside_remove_dir") || d.log.iter().any(|o| matches!(o, FsOp::RemoveDirAll(_))) {
-                    if let Some(FsOp::RemoveDirAll(p)) = d.log.iter().find(|o| matches!(o, FsOp::RemoveDirAll(_))) {
+                // a crash inside the retention removal leaves the evicted checkpoint half removed — but
+                // retention may only take the old checkpoint away once the new one is completely on
+                // disk: if the interrupted attempt does not restore completely, the old one must be intact
+                if let Some(FsOp::RemoveDirAll(p)) = d.log.iter().find(|o| matches!(o, FsOp::RemoveDirAll(_))) {
+                    let new_is_complete = match self.m.ckpts.last() {
+                        Some(c) if c.status == Status::Interrupted && c.op_index == step => match probe_restore(&self.dir, &c.id) {
+                            Ok(seen) => check_against(&seen, &c.snap, "x", "x", "x", step).is_ok(),
+                            Err(_) => false,
+                        },
+                        _ => false,
+                    };
+                    if new_is_complete {
                         let old = p.file_name().map(|s| s.to_string_lossy().to_string()).unwrap_or_default();
                         for c in self.m.ckpts.iter_mut().filter(|c| c.id == old) {
                             c.evicted = true;
                             c.evict_uncertain = true;
                         }
+                    } else {
+                        obs.count("probe.retention_removal_seen_before_new_checkpoint_complete");
                     }
                 }
                 self.restart(obs);
